@@ -787,6 +787,44 @@ def e2e_leg(ctx, form, MAXM, MAXE, disagreements, failures, dist, limit=102400):
                                         [e2e.conn([rq], audit=e2e.audit(dest, uid=0)), e2e.conn([get], audit=e2e.audit(e2e.IMDS, uid=0))],
                                         key=key if with_key else None))
                 metas.append({"kind": "body", "optional": set() if must_answer else {0}})
+        # request targets with percent-escape edge shapes, in the path and in the query
+        targets = ["/metadata/instance%", "/metadata/instance%2", "/metadata/instance%2e", "/metadata/instance%2?api-version=2021-02-01",
+                   "/metadata/instance%2e%2e/x", "/a%zz", "/a%%", "/a%%2", "/a%2%", "/%", "/%2", "/%2/", "/x%c3", "/x%C3%A9%", "/x?q=%", "/x?q=%2",
+                   "/x?q=%zz&%", "/x?%2", "/" + "%41" * 600, "/" + "%2" * 600, "/" + "%" * 900, "/machine%3Fcomp=goalstate%", "/x%00", "/x%0"]
+        for k in range(6):
+            tail = "".join(rng.choice(["%", "%2", "%2e", "%zz", "a", "/", "%%", "%C3", ".", "%2E%2e"]) for _ in range(rng.randint(1, 6)))
+            targets.append("/r" + tail)
+            targets.append("/r?k=" + tail.replace("/", ""))
+        for i in range(0, len(targets), 3):
+            grp = targets[i:i + 3]
+            # one connection per target (a dying handler takes its connection with it), attributed and not
+            conns = [e2e.conn([e2e.http_request("GET", t, [])], audit=e2e.audit(e2e.IMDS, uid=0) if j % 2 == 0 else None) for j, t in enumerate(grp)]
+            scs.append(e2e.scenario("targets %s" % [t[:40] for t in grp], conns + [e2e.conn([get], audit=e2e.audit(e2e.IMDS, uid=0))]))
+            metas.append({"kind": "target"})
+        # host rule documents with dangling identity / role / privilege names (the repository's own
+        # key_status_v2 sample has a dangling identity), installed before requests that do / do not match
+        def rules_doc(mode, default, dangling):
+            privs = [{"name": "p1", "path": "/metadata/instance"}, {"name": "p2", "path": "/machine", "queryParameters": {"comp": "goalstate"}}]
+            roles = [{"name": "r1", "privileges": ["p1", "p2"] + (["p-undefined"] if "privilege" in dangling else [])}]
+            idents = [{"name": "i1", "userName": "no-such-user", "groupName": "no-such-group", "exePath": "/no/such", "processName": "nosuch"}]
+            assigns = [{"role": "r1", "identities": ["i1"] + (["i-undefined"] if "identity" in dangling else [])}]
+            if "role" in dangling:
+                assigns.append({"role": "r-undefined", "identities": ["i1", "i-undefined2"]})
+            if "empty" in dangling:
+                assigns.append({"role": "r1", "identities": []})
+            return {"defaultAccess": default, "mode": mode, "id": "c13-" + "-".join(sorted(dangling)),
+                    "rules": {"privileges": privs, "roles": roles, "identities": idents, "roleAssignments": assigns}}
+        match_reqs = [e2e.http_request("GET", "/metadata/instance?api-version=1", []), e2e.http_request("GET", "/machine?comp=goalstate", []),
+                      e2e.http_request("GET", "/other", [])]
+        for dangling in (["identity"], ["role"], ["privilege"], ["identity", "role", "privilege", "empty"], []):
+            for mode, default in (("enforce", "deny"), ("audit", "deny"), ("enforce", "allow")):
+                doc = rules_doc(mode, default, dangling)
+                for endpoint, dest in (("imds", e2e.IMDS), ("wireserver", e2e.WIRESERVER), ("hostga", e2e.HOSTGA)):
+                    if endpoint != "imds" and (mode, default) != ("enforce", "deny"):
+                        continue
+                    conns = [e2e.conn([rq], audit=e2e.audit(dest, uid=0)) for rq in match_reqs]
+                    scs.append(e2e.scenario("rules %s %s/%s dangling %s" % (endpoint, mode, default, dangling), conns, rules={endpoint: doc}))
+                    metas.append({"kind": "rules"})
         big = e2e.http_request("GET", "/" + "u" * 65400, [])
         scs.append(e2e.scenario("64 KiB URL", [e2e.conn([big]), e2e.conn([get], audit=e2e.audit(e2e.IMDS, uid=0))], key=key))
         metas.append({"kind": "url"})
